@@ -167,8 +167,8 @@ def theorems_of(pid):
     for f in prop_files(pid):
         src = open(os.path.join(COQ, "theories", "Props", f + ".v")).read()
         src = re.sub(r"\(\*.*?\*\)", " ", src, flags=re.S)
-        if f != pid and pid == "C08":
-            continue   # C08.v re-states C08_basic / C08_triangle as conjunctions
+        if f in ("C08_basic", "C08_triangle"):
+            continue   # C08.v re-states these as conjunctions
         names += re.findall(r"^\s*Theorem\s+([A-Za-z0-9_']+)", src, flags=re.M)
     return names
 
